@@ -60,6 +60,12 @@ fn order_body<const NV: usize, const NA: usize>(fast_start: bool) {
     let mut w = build_writer::<NV, NA>(RecSink::new(), vpts, core::array::from_fn(|i| i == 0), apts, true);
     let r = w.finalize(&c.track, None, fast_start);
     assert!(r.is_ok());
+    if replay_mode() {
+        let vkey: [bool; NV] = core::array::from_fn(|i| i == 0);
+        native_finalize_check::<NV, NA>(&mp4h::sink(&w).log, &vpts, &vkey, &apts, true, fast_start);
+        core::mem::forget((w, r));
+        return;
+    }
     let sink = mp4h::sink(&w);
     let data_start = sink.pos_of(b'm').unwrap() + 4;
     let mut i = 0;
